@@ -68,16 +68,17 @@ var (
 // Tagged returns, for every printed tuple <<"tag", ...>>, the remaining elements parsed.
 func (r *TLCResult) Tagged(tag string) [][]any {
 	var out [][]any
-	prefix := `<<"` + tag + `"`
+	quoted := `"` + tag + `"`
 	for _, l := range r.Printed {
-		if !strings.HasPrefix(l, prefix) {
+		// TLC prints short tuples as <<"TAG", ..>> and wrapped (long) ones as << "TAG", .. >>
+		if !strings.HasPrefix(l, "<<") || !strings.HasPrefix(strings.TrimSpace(l[2:]), quoted) {
 			continue
 		}
 		v, err := ParseTLA(l)
 		if err != nil {
 			continue
 		}
-		if t, ok := v.([]any); ok && len(t) >= 1 {
+		if t, ok := v.([]any); ok && len(t) >= 1 && t[0] == tag {
 			out = append(out, t[1:])
 		}
 	}
@@ -219,10 +220,27 @@ func RunTLC(run TLCRun) (*TLCResult, error) {
 	sc.Buffer(make([]byte, 1<<20), 1<<30)
 	inTrace := false
 	var trace strings.Builder
+	var pending strings.Builder // a printed value that TLC wrapped over several lines
 	for sc.Scan() {
 		l := sc.Text()
+		if pending.Len() > 0 {
+			// continuation of a wrapped value: TLC pretty-prints values wider than ~80 columns
+			pending.WriteByte(' ')
+			pending.WriteString(strings.TrimSpace(l))
+			if tlaBalanced(pending.String()) {
+				if !inTrace {
+					res.Printed = append(res.Printed, pending.String())
+				}
+				pending.Reset()
+			}
+			continue
+		}
 		switch {
 		case strings.HasPrefix(l, `"`) || strings.HasPrefix(l, "<<"):
+			if !tlaBalanced(l) {
+				pending.WriteString(l)
+				continue
+			}
 			if !inTrace {
 				res.Printed = append(res.Printed, l)
 			}
@@ -286,6 +304,38 @@ func RunTLC(run TLCRun) (*TLCResult, error) {
 		return res, fmt.Errorf("tlc %s failed (exit %d): %s\n%s", run.Module, res.Exit, res.Err, tail)
 	}
 	return res, nil
+}
+
+// tlaBalanced reports whether every <<, {, [, ( opened in s (outside string literals) is closed.
+func tlaBalanced(s string) bool {
+	depth := 0
+	inStr := false
+	for i := 0; i < len(s); i++ {
+		c := s[i]
+		if inStr {
+			if c == '\\' {
+				i++
+			} else if c == '"' {
+				inStr = false
+			}
+			continue
+		}
+		switch {
+		case c == '"':
+			inStr = true
+		case c == '<' && i+1 < len(s) && s[i+1] == '<':
+			depth++
+			i++
+		case c == '>' && i+1 < len(s) && s[i+1] == '>':
+			depth--
+			i++
+		case c == '{' || c == '[' || c == '(':
+			depth++
+		case c == '}' || c == ']' || c == ')':
+			depth--
+		}
+	}
+	return depth <= 0 && !inStr
 }
 
 // TraceStates splits a raw TLC counterexample into per-state variable maps (best effort).
